@@ -718,7 +718,7 @@ def pncfunc(func, ifile1, coordkeys=None, verbose=0):
         if outvar.ndim > 0:
             outvar[:] = outval
         else:
-            outvar.itemset(outval)
+            outvar[...] = outval
         outvar.fill_value = -999
     return tmpfile
 
@@ -798,7 +798,7 @@ def pncbfunc(func, ifile1, ifile2, coordkeys=None, verbose=0):
         if outvar.ndim > 0:
             outvar[:] = outval
         else:
-            outvar.itemset(outval)
+            outvar[...] = outval
         outvar.fill_value = -999
     return tmpfile
 
